@@ -276,6 +276,9 @@ class Impl:
             return 'ok'
         if c == 'read':
             return 'val ' + qout(self.items[int(t[1])].attrs[int(t[2])])
+        if c == 'spec':
+            v = self.items[int(t[1])].attrs.get(int(t[2]))
+            return 'none' if v is None else 'val ' + qout(v)
         if c == 'get':
             v = self.items[int(t[1])].attrs.get(int(t[2]))
             return 'none' if v is None else 'val ' + qout(v)
